@@ -855,10 +855,10 @@ def _hoist_walrus(tree):
     def collect(e, out, blocked):
         """walk e in evaluation order; append hoistable NamedExpr nodes; returns True once something with a call was passed"""
         if isinstance(e, ast.NamedExpr):
-            blocked = collect(e.value, out, blocked)
+            inner = collect(e.value, out, blocked)
             if not blocked and isinstance(e.target, ast.Name):
-                out.append(e)
-            return blocked or has_call(e.value)
+                out.append(e)           # nothing with a call is evaluated before it: its own value may call
+            return blocked or inner or has_call(e.value)
         if isinstance(e, ast.BoolOp):
             return collect(e.values[0], out, blocked) or any(has_call(v) for v in e.values[1:])
         if isinstance(e, ast.IfExp):
@@ -893,9 +893,34 @@ def _hoist_walrus(tree):
         # inner walruses of a hoisted value were collected before the outer one: their values are already plain names when assigned
         return out, pre
 
+    def any_to_loop(st):
+        """`if any(C for x in IT): <leaves>`  is  `for x in IT: if C: <leaves>`   (also `if not all(C ...)` with C negated); <leaves> ends in
+        raise / return, so nothing after the first hit runs either way"""
+        if not (isinstance(st, ast.If) and not st.orelse and st.body and isinstance(st.body[-1], (ast.Raise, ast.Return))):
+            return None
+        t, neg = st.test, False
+        while isinstance(t, ast.UnaryOp) and isinstance(t.op, ast.Not):
+            t, neg = t.operand, not neg
+        if not (isinstance(t, ast.Call) and isinstance(t.func, ast.Name) and t.func.id in ("any", "all") and len(t.args) == 1 and not t.keywords
+                and isinstance(t.args[0], (ast.GeneratorExp, ast.ListComp)) and len(t.args[0].generators) == 1 and not t.args[0].generators[0].is_async):
+            return None
+        if (t.func.id == "any") == neg:
+            return None          # `if not any(..)` / `if all(..)`: the body runs when no element hits - not a per-element exit
+        g = t.args[0].generators[0]
+        cond = t.args[0].elt if t.func.id == "any" else ast.UnaryOp(op=ast.Not(), operand=t.args[0].elt)
+        inner = ast.If(test=cond, body=st.body, orelse=[])
+        for c in reversed(g.ifs):
+            inner = ast.If(test=c, body=[inner], orelse=[])
+        loop = ast.For(target=g.target, iter=g.iter, body=[inner], orelse=[], type_comment=None)
+        return ast.fix_missing_locations(ast.copy_location(loop, st))
+
     def block(stmts):
         res = []
         for st in stmts:
+            lp = any_to_loop(st)
+            if lp is not None:
+                st = lp
+                count[0] += 1
             for fld in ("body", "orelse", "finalbody"):
                 if isinstance(getattr(st, fld, None), list) and not isinstance(st, (ast.FunctionDef, ast.AsyncFunctionDef, ast.ClassDef)):
                     setattr(st, fld, block(getattr(st, fld)))
@@ -1288,6 +1313,33 @@ def _split_tuple_assignments(tree):
     class T(ast.NodeTransformer):
         def visit_Call(self, n):
             self.generic_visit(n)
+            # map(f, xs) is (f(x) for x in xs); filter(f, xs) is (x for x in xs if f(x)); list(<generator expression>) is the list comprehension
+            if isinstance(n.func, ast.Name) and n.func.id in ("map", "filter") and len(n.args) == 2 and not n.keywords \
+                    and not any(isinstance(a, ast.Starred) for a in n.args) and isinstance(n.args[0], (ast.Name, ast.Attribute, ast.Lambda, ast.Constant)):
+                import copy as _c
+                var = f"__m{getattr(n, 'lineno', 0)}_{getattr(n, 'col_offset', 0)}"
+                fx, xs = n.args
+                arg = ast.Name(id=var, ctx=ast.Load())
+                if isinstance(fx, ast.Lambda) and len(fx.args.args) == 1 and not fx.args.defaults and not fx.args.vararg and not fx.args.kwarg and not fx.args.kwonlyargs:
+                    p_ = fx.args.args[0].arg
+
+                    class S_(ast.NodeTransformer):
+                        def visit_Name(self, x):
+                            return ast.Name(id=var, ctx=ast.Load()) if x.id == p_ and isinstance(x.ctx, ast.Load) else x
+                    applied = S_().visit(_c.deepcopy(fx.body))
+                elif isinstance(fx, ast.Constant) and fx.value is None and n.func.id == "filter":
+                    applied = arg
+                elif isinstance(fx, (ast.Name, ast.Attribute)):
+                    applied = ast.Call(func=fx, args=[arg], keywords=[])
+                else:
+                    applied = None
+                if applied is not None:
+                    gen = ast.comprehension(target=ast.Name(id=var, ctx=ast.Store()), iter=xs, ifs=[] if n.func.id == "map" else [applied], is_async=0)
+                    elt = applied if n.func.id == "map" else ast.Name(id=var, ctx=ast.Load())
+                    return ast.fix_missing_locations(ast.copy_location(ast.GeneratorExp(elt=elt, generators=[gen]), n))
+            if isinstance(n.func, ast.Name) and n.func.id == "list" and len(n.args) == 1 and not n.keywords and isinstance(n.args[0], ast.GeneratorExp):
+                g_ = n.args[0]
+                return ast.fix_missing_locations(ast.copy_location(ast.ListComp(elt=g_.elt, generators=g_.generators), n))
             # getattr(obj, "name")  with a literal identifier  is  obj.name
             if isinstance(n.func, ast.Name) and n.func.id == "getattr" and len(n.args) == 2 and not n.keywords and isinstance(n.args[1], ast.Constant) \
                     and isinstance(n.args[1].value, str) and n.args[1].value.isidentifier() and isinstance(n.args[0], (ast.Name, ast.Attribute)):
